@@ -257,6 +257,10 @@ type c13Case struct {
 	MapOrder  []simrt.MapDecision `json:"maporder"`
 	FileOrder []int               `json:"fileorder,omitempty"`
 	CatKind   int                 `json:"cat_kind"`
+	Native    bool                `json:"native,omitempty"`  // statistical replay: repeated native compilations
+	Process   bool                `json:"process,omitempty"` // compare with a fresh process (different history)
+	Unit      int                 `json:"unit,omitempty"`
+	Index     int                 `json:"index,omitempty"`
 }
 
 func c13Opts() gen.Opts {
@@ -335,6 +339,40 @@ func C13(c *wk.Ctx) {
 		readReplay(c, &cs)
 		u := wk.NewUnit(0)
 		full.catKind = cs.CatKind
+		if cs.Native {
+			var first vector
+			for k := 0; k < 200; k++ {
+				v, _ := observeUnder(cs.Bundle, full, nil)
+				u.Evals++
+				if k == 0 {
+					first = v
+				} else if comp, detail := diffVectors(first, v, true); comp != "" {
+					b, _ := json.Marshal(&cs)
+					u.AddFail(&wk.Failure{Class: "native-disagreement", Site: comp,
+						Detail: "two compilations of the same sources in one process (native map iteration order) disagree: " + comp + ": " + trunc(detail, 500), Replay: b})
+					break
+				}
+			}
+			c.Emit(u)
+			return
+		}
+		if cs.Process {
+			// this process compiles the unit's cases first to last, a fresh child last to first
+			mine := c13Order(c, cs.Unit, perUnitC13, false)
+			other, err := c.Child("oracle", cs.Unit, "rev")
+			if err != nil {
+				c.Fatal("%v", err)
+			}
+			k := fmt.Sprintf("c%d", cs.Index)
+			if mine[k] != other[k] {
+				b, _ := json.Marshal(&cs)
+				u.AddFail(&wk.Failure{Class: "unequal", Site: "process: the result of a compilation depends on what the process compiled before",
+					Detail: fmt.Sprintf("case %d of unit %d observed %s here and %s in a fresh process that compiled the unit's cases in reverse order", cs.Index, cs.Unit, mine[k], other[k]), Replay: b})
+			}
+			u.Evals = 2
+			c.Emit(u)
+			return
+		}
 		ref, _ := observeUnder(cs.Bundle, full, simrt.CanonicalPlan())
 		for _, i := range cs.FileOrder {
 			if i < 0 || i >= len(cs.Bundle.Files) {
@@ -354,11 +392,19 @@ func C13(c *wk.Ctx) {
 		c.Emit(u)
 		return
 	}
-	units, perUnit := 400, 4
+	units, perUnit := 400, perUnitC13
 	if c.Tier == "thorough" {
 		units = 8000
 	}
 	native := c.Extra == "native"
+	if c.Mode == "oracle" {
+		u := wk.NewUnit(c.Start)
+		for k, v := range c13Order(c, c.Start, perUnit, true) {
+			u.Observe(k, v)
+		}
+		c.Emit(u)
+		return
+	}
 	if c.Mode == "plan" {
 		c.Emit(map[string]interface{}{"ev": "plan", "units": units, "cases_per_unit": perUnit})
 		return
@@ -366,15 +412,33 @@ func C13(c *wk.Ctx) {
 	for run := c.Start; run < c.Start+c.Count && run < units; run++ {
 		c.Begin(run)
 		u := wk.NewUnit(run)
+		if !native {
+			// processes with different histories must agree: a fresh child compiles the cases last to first
+			mine := c13Order(c, run, perUnit, false)
+			other, err := c.Child("oracle", run, "rev")
+			if err != nil {
+				u.Trouble = err.Error()
+			} else {
+				for ci := 0; ci < perUnit; ci++ {
+					k := fmt.Sprintf("c%d", ci)
+					u.Evals++
+					u.Counters["runs_process_history"]++
+					if mine[k] != other[k] {
+						gc, catKind := c13Gen(c, run, ci)
+						cs := &c13Case{Bundle: gc, CatKind: catKind, Process: true, Unit: run, Index: ci}
+						b, _ := json.Marshal(cs)
+						u.AddFail(&wk.Failure{Class: "unequal", Site: "process: the result of a compilation depends on what the process compiled before",
+							Detail: fmt.Sprintf("case %d of unit %d observed %s here and %s in a fresh process that compiled the unit's cases in reverse order", ci, run, mine[k], other[k]), Replay: b})
+					}
+				}
+			}
+		}
 		for ci := 0; ci < perUnit; ci++ {
 			// one PRNG per case, so that the native and the instrumented worker draw the same case
 			r := simrt.NewRNG(c.UnitSeed(run, uint64(1300+ci)))
-			o := c13Opts()
-			if ci%4 == 3 {
-				o.DropRequired = 0.5 // compile errors that print the offending call
-			}
-			gc := gen.Generate(c.UnitSeed(run, uint64(500+ci)), o)
-			cs := &c13Case{Bundle: gc, CatKind: r.Intn(3)}
+			gc, catKind := c13Gen(c, run, ci)
+			r.Intn(3)
+			cs := &c13Case{Bundle: gc, CatKind: catKind}
 			full.catKind = cs.CatKind
 			if native {
 				// plain build, native map order: K compilations in this process
@@ -386,6 +450,7 @@ func C13(c *wk.Ctx) {
 						first = v
 						u.Observe(fmt.Sprintf("c%d", ci), vecDigest(v))
 					} else if comp, detail := diffVectors(first, v, true); comp != "" {
+						cs.Native = true
 						b, _ := json.Marshal(cs)
 						u.AddFail(&wk.Failure{Class: "native-disagreement", Site: comp,
 							Detail: "two compilations of the same sources in one process (native map iteration order) disagree: " + comp + ": " + trunc(detail, 500), Replay: b})
@@ -484,4 +549,31 @@ func C13(c *wk.Ctx) {
 		}
 		c.Emit(u)
 	}
+}
+
+const perUnitC13 = 4
+
+// c13Gen draws case ci of a unit (the same in every worker mode).
+func c13Gen(c *wk.Ctx, run, ci int) (*gen.Case, int) {
+	r := simrt.NewRNG(c.UnitSeed(run, uint64(1300+ci)))
+	o := c13Opts()
+	if ci%4 == 3 {
+		o.DropRequired = 0.5 // compile errors that list the missing params and print the offending call
+	}
+	return gen.Generate(c.UnitSeed(run, uint64(500+ci)), o), r.Intn(3)
+}
+
+// c13Order observes the unit's cases under the canonical order, first to last or last to first.
+func c13Order(c *wk.Ctx, run, perUnit int, reverse bool) map[string]string {
+	out := map[string]string{}
+	for k := 0; k < perUnit; k++ {
+		ci := k
+		if reverse {
+			ci = perUnit - 1 - k
+		}
+		gc, catKind := c13Gen(c, run, ci)
+		v, _ := observeUnder(gc, obsOpts{renders: 4, js: true, catKind: catKind}, simrt.CanonicalPlan())
+		out[fmt.Sprintf("c%d", ci)] = vecDigest(v)
+	}
+	return out
 }
